@@ -13,7 +13,7 @@ from ..drv import module_state
 ID = "C19"
 LEVEL = "model_checking"
 ROOT = os.path.dirname(os.path.dirname(os.path.dirname(os.path.abspath(__file__))))
-XSTRATS = "build,bfs,scc"
+XSTRATS = "build,bfs,scc,minskip,succskip"
 
 
 def plan(tier, seed):
@@ -149,7 +149,13 @@ def run_unit(unit):
                 with case_timeout(300):
                     base = safe_dump(net, st)
                     for name, fn in menu():
-                        fn()
+                        try:
+                            fn()
+                        except Exception as e:
+                            # every menu entry works in a fresh process; failing here means state leaked from earlier calls
+                            res["violations"].append(V("unrelated-call-fails-after-earlier-calls", {"kind": "inproc", "net": list(spec), "strategy": st, "after": name},
+                                                       f"menu entry '{name}' raised {type(e).__name__}: {str(e)[:120]} after earlier calls in the same process", site=name))
+                            break
                         again = safe_dump(net, st)
                         res["transitions"] += 1
                         if again != base:
@@ -210,7 +216,10 @@ def replay(case):
         net = U.resolve(case["net"])
         base = full_dump(net, case["strategy"])
         for name, fn in menu():
-            fn()
+            try:
+                fn()
+            except Exception as e:
+                return [V("unrelated-call-fails-after-earlier-calls", case, f"{name}: {e}", site=name)]
             if full_dump(net, case["strategy"]) != base:
                 return [V("dump-differs-in-same-process", case, name, site=name)]
             if name == case["after"]:
